@@ -709,6 +709,14 @@ class Step(Node):
         # so the delete fires `step_need_count_del` like any other delete
         # instead of being silently skipped by `REPLACE`'s implicit conflict-delete
         # (which never fires delete triggers).
+        # A detached step can be declared again while its command is still running.
+        # The command keeps running, so the row stays RUNNING (and keeps its open holds):
+        # a row that is PENDING would be dispatched a second time next to it.
+        # The executor notices at completion that the declaration changed and runs the step again.
+        old_row = self.db.execute(
+            "SELECT state, _holding FROM step WHERE node = :node", {"node": self.i}
+        ).fetchone()
+        still_running = old_row is not None and old_row[0] == StepState.RUNNING.value
         self.db.execute("DELETE FROM step WHERE node = :node", {"node": self.i})
 
         # The `step_hash`/`step_outcome` satellite rows are untouched
@@ -748,14 +756,15 @@ class Step(Node):
         self.db.execute(
             "INSERT INTO step "
             "(node, state, need, duration, shell, _safe, _check_safe, _safe_ignoring_hold, "
-            "_implied_need, _check_after, _has_hash) "
+            "_implied_need, _check_after, _has_hash, _holding) "
             "VALUES(:node, :state, :need, :duration, :shell, :safe, :check_safe, :safe, "
             ":implied_need, 1, "
-            "(SELECT EXISTS(SELECT 1 FROM step_hash WHERE node = :node)))",
+            "(SELECT EXISTS(SELECT 1 FROM step_hash WHERE node = :node)), :holding)",
             {
                 "node": self.i,
                 "need": need.value,
-                "state": StepState.PENDING.value,
+                "state": (StepState.RUNNING if still_running else StepState.PENDING).value,
+                "holding": old_row[1] if still_running else 0,
                 "duration": 1.0 if duration is None else duration,
                 "shell": int(shell),
                 "safe": int(_safe),
